@@ -213,6 +213,10 @@ var (
 	seedTwo   = seed{"two-pages", []O{{K: pagedrv.OBegin}, {K: pagedrv.OAlloc, A: 2}, {K: pagedrv.OWriteAll}, {K: pagedrv.OSetRoot, A: 0}, {K: pagedrv.OCommit}}}
 	seedWAL   = seed{"overwritten", []O{{K: pagedrv.OBegin}, {K: pagedrv.OAlloc, A: 2}, {K: pagedrv.OWriteAll}, {K: pagedrv.OCommit},
 		{K: pagedrv.OBegin}, {K: pagedrv.OWriteAll}, {K: pagedrv.OCommit}}}
+	// a page whose contents live in an overwrite page is freed before any checkpoint: its id is free
+	// while the overwrite mapping is dropped (re-use of the id must not read through a stale mapping)
+	seedWALFreed = seed{"overwritten-freed", []O{{K: pagedrv.OBegin}, {K: pagedrv.OAlloc, A: 2}, {K: pagedrv.OWriteAll}, {K: pagedrv.OCommit},
+		{K: pagedrv.OBegin}, {K: pagedrv.OWriteAll}, {K: pagedrv.OCommit}, {K: pagedrv.OBegin}, {K: pagedrv.OFree, A: 0}, {K: pagedrv.OCommit}}}
 	seedTail = seed{"free-tail", []O{{K: pagedrv.OBegin}, {K: pagedrv.OAlloc, A: 3}, {K: pagedrv.OWriteAll}, {K: pagedrv.OCommit},
 		{K: pagedrv.OBegin}, {K: pagedrv.OFree, A: -1}, {K: pagedrv.OCommit}}}
 	seedFrag = seed{"fragmented", []O{{K: pagedrv.OBegin}, {K: pagedrv.OAlloc, A: 7}, {K: pagedrv.OWriteAll}, {K: pagedrv.OCommit},
@@ -320,7 +324,7 @@ func runC04(ctx *core.Ctx, pool *par.Pool) {
 	}
 	nOv := 3 // overflow-body runs below
 	if !ctx.Quick() {
-		nOv = 7
+		nOv = 19
 	}
 	for _, run := range runs {
 		ctx.Share(ctx.FairShare(len(runs)+nOv, 1))
@@ -340,6 +344,15 @@ func runC04(ctx *core.Ctx, pool *par.Pool) {
 	if !ctx.Quick() {
 		ovRuns = []bfsRun{{pagedrv.CfgA, seedOverflowPartial, 8}, {pagedrv.CfgA, seedOverflow, 8}, {pagedrv.CfgB, seedOverflowPartial, 8}, {pagedrv.CfgB, seedOverflow, 8}, {pagedrv.CfgD, seedOverflow, 7},
 			{pagedrv.CfgA, seedOverflowOpen, 8}, {pagedrv.CfgD, seedOverflowOpen, 8}}
+	}
+	// fresh bounded files filled up to their last k pages in one transaction: the data end marker is still
+	// below the limit when an overflow-enabled transaction has to grow the meta area (0 < available < needed)
+	for _, k := range []int{1, 2, 3, 5} {
+		sd := seed{fmt.Sprintf("first-fill-leaves-%d", k), []O{{K: pagedrv.OBegin}, {K: pagedrv.OAllocAvail, A: -k}, {K: pagedrv.OWriteAll}, {K: pagedrv.OCommit}}}
+		if !ctx.Quick() { // thorough tier only: no known change needs them and the quick budget is used up
+
+			ovRuns = append(ovRuns, bfsRun{pagedrv.CfgA, sd, 6}, bfsRun{pagedrv.CfgD, sd, 6}, bfsRun{pagedrv.CfgB, sd, 6})
+		}
 	}
 	for _, run := range ovRuns {
 		ctx.Share(ctx.FairShare(len(runs)+len(ovRuns), 1))
